@@ -1,7 +1,5 @@
 //! Two-way string matching on steroids.
 
-use std::cmp::max;
-
 use memchr_rs::memchr;
 
 const SIMD_THRESHOLD: usize = 16;
@@ -67,12 +65,17 @@ pub fn find(haystack: &str, needle: &str) -> Option<usize> {
         return None;
     }
 
-    let (crit, period) = crit_period(n);
+    // The byte at the critical position is the anchor that memchr scans for.
+    // Every candidate is verified by a full comparison and the comparison does
+    // not report where it failed, so the period gives no sound shift here: the
+    // next candidate is the next anchor.
+    let (crit, _period) = crit_period(n);
     let anchor = n[crit];
 
     let mut offset = 0;
 
-    while offset + nlen <= hlen {
+    // An occurrence whose anchor is at `offset` or later still fits.
+    while offset + (nlen - crit) <= hlen {
         let index = memchr(anchor, h, offset);
         if index >= hlen {
             return None;
@@ -88,8 +91,7 @@ pub fn find(haystack: &str, needle: &str) -> Option<usize> {
             return Some(start);
         }
 
-        let shift = max(1, period);
-        offset = start.saturating_add(shift);
+        offset = index + 1;
     }
 
     None
@@ -101,8 +103,9 @@ fn maximal_suffix(x: &[u8], rev: bool) -> (usize, usize) {
     let (mut i, mut j, mut k, mut p) = (0, 1, 1, 1);
 
     while j + k <= n {
-        let ap = x[i + k];
-        let a = x[j + k];
+        // i, j, k follow the 1-indexed presentation of the algorithm.
+        let ap = x[i + k - 1];
+        let a = x[j + k - 1];
         if (a < ap && !rev) || (a > ap && rev) {
             j += k;
             k = 1;
